@@ -73,7 +73,12 @@ def _run(ctx, ncases, nsteps):
         if b0.dtype.kind == "f" and b0.size and b0.shape[0] == 1:
           cands.append(f)
     acc.hit(f"candidates:{len(cands)}")
-    for field in rng.choice(cands, size=min(len(cands), 8 if not ctx.thorough else 20), replace=False):
+    # fields read through closure-built device functions (the broadphase filter) are invisible to the access table: always include them
+    prio = [f for f in ("Model.geom_margin", "Model.geom_gap", "Model.geom_rbound", "Model.geom_aabb") if f in cands or f in all_batched]
+    prio = [f for f in prio if getattr(_get(m0, f)[0], _get(m0, f)[1], None) is not None]
+    rest = [f for f in cands if f not in prio]
+    chosen = prio + rng.choice(rest, size=min(len(rest), 8 if not ctx.thorough else 20), replace=False).tolist()
+    for field in chosen:
       m = mjw.put_model(mjm)
       obj, name = _get(m, field)
       arr = getattr(obj, name)
@@ -128,7 +133,7 @@ RULE = ("random trees with actuators/limits/damping over a floor; for fields dra
 
 
 def correspondence(ctx):
-  acc, host = _run(ctx, 6 if ctx.thorough else 2, 4 if ctx.thorough else 3)
+  acc, host = _run(ctx, 8 if ctx.thorough else 4, 4 if ctx.thorough else 3)
   return result(acc, RULE, extra={"host_consumed_batched_fields": host, "device_read_batched_fields": len(batched_fields())})
 
 
